@@ -34,6 +34,15 @@ class Injected(RuntimeError):
     """The exception the harness makes a plug-in raise."""
 
 
+class InjectedInterrupt(BaseException):
+    """... or an interrupt that is not an Exception (what Ctrl-C / SystemExit inside a plug-in looks like)."""
+
+
+def injected(at: str):
+    rec = REC
+    return InjectedInterrupt(at) if rec is not None and rec.script.get("fault_base") else Injected(at)
+
+
 # ------------------------------------------------------------------------------------------------
 # recorder (module global: plug-in objects are pickled/unpickled by black-it, the recorder is not)
 # ------------------------------------------------------------------------------------------------
@@ -186,7 +195,7 @@ def _model(theta, N, seed, D):  # noqa: N803
     if rec is not None and rec.enabled:
         if rec.fault_now("model"):
             rec.log({"e": "fault", "at": "model"})
-            raise Injected("model")
+            raise injected("model")
         rec.log({"e": "model", "pid": rec.pid(theta), "N": int(N), "sp": rec.seedpos.get(seed, -1)})
     return model_series(theta, N, seed, D)
 
@@ -266,7 +275,7 @@ class TableLoss(BaseLoss):
             if rec.enabled:
                 if rec.fault_now("loss"):
                     rec.log({"e": "fault", "at": "loss"})
-                    raise Injected("loss")
+                    raise injected("loss")
                 seq = rec.script.get("loss", {}).get("seq", [])
                 if rec.loss_ok < len(seq):
                     a = seq[rec.loss_ok]          # scripted by (successful) invocation index
@@ -355,7 +364,7 @@ def _sample_wrapper(self, search_space, existing_points, existing_losses):
            "lens": [len(cal.params_samp), len(cal.losses_samp), len(cal.series_samp), len(cal.batch_num_samp), len(cal.method_samp)]}
     if rec.fault_now("sampler"):
         rec.log({"e": "fault", "at": "sampler"})
-        raise Injected("sampler")
+        raise injected("sampler")
     if rec.cfg["kind"] == "rl" and pre["bi"] > 0:
         rec.agent_samples[rec.session] = rec.agent_samples.get(rec.session, 0) + 1
     try:
@@ -559,10 +568,10 @@ def run_script(script: dict) -> dict:
                         p, lo = cal.calibrate(op[1])
                         rec.in_call = False
                         rec.log({"e": "ret", "pairs": [[rec.pid(p[i]), rec.loss_id(lo[i])] for i in range(len(p))]})
-                    except Exception as e:  # noqa: BLE001
+                    except (Exception, InjectedInterrupt) as e:  # noqa: BLE001
                         rec.in_call = False
                         raised = True
-                        rec.log({"e": "raise", "injected": isinstance(e, Injected) or bool(rec.events and rec.events[-1].get("native")), "type": f"{type(e).__name__}: {e}"[:160]})
+                        rec.log({"e": "raise", "injected": isinstance(e, (Injected, InjectedInterrupt)) or bool(rec.events and rec.events[-1].get("native")), "type": f"{type(e).__name__}: {e}"[:160]})
                     rec.log(idle_event(rec, cal, base_threads, raised))
                     if cfg["saving"] and not raised and op[1] > 0:
                         rec.log(disk_event(rec, folder))
